@@ -93,6 +93,33 @@ def make_seq(cname, kind, L, timeout):
     return Cond(f"seq/{cname}/{kname}", [("a", int), ("b", int), ("c", int), ("n", int)], body, mode="E1", timeout=timeout)
 
 
+def make_compose(cname, L, timeout):
+    """iteritems / itervalues applied to the iterator iteritems returned (the composition its own docstring shows):
+    nothing is consumed or lost in between."""
+    ctor = CONTAINERS[cname]
+
+    def body(a: int, b: int, c: int, n: int):
+        S = _ser()
+        n = n % (L + 1)
+        xs = _elems(1, a, b, c, n, L)  # pairs
+        want = list(xs)
+        ok, it = attempt(lambda: list(S.iteritems(S.iteritems(ctor(list(xs))))))
+        ok2, vs = attempt(lambda: list(S.itervalues(S.iteritems(ctor(list(xs))))))
+        ok3, it3 = attempt(lambda: list(S.iteritems(S.iteritems(dict(xs).items()))))
+        reached()
+        if not (ok and ok2 and ok3):
+            return ("composition_raised", cname, _d(xs, it, vs, it3))
+        if n > 0 and not _same_list(it, want):
+            return ("items_lost_in_composition", cname, _d(xs, it, want))
+        if n > 0 and not _same_list(vs, want):
+            return ("values_lost_in_composition", cname, _d(xs, vs, want))
+        if not _same_list(it3, list(dict(xs).items())):
+            return ("items_lost_in_composition", "dict_items_view", _d(xs, it3))
+        return None
+
+    return Cond(f"compose/{cname}", [("a", int), ("b", int), ("c", int), ("n", int)], body, mode="E1", timeout=timeout)
+
+
 MAPS = {
     "dict": dict, "OrderedDict": collections.OrderedDict, "MappingProxy": lambda d: types.MappingProxyType(dict(d)),
     "MyMapping": O.MyMapping, "OrderedDict_moved": O.moved_ordered, "ReversedDict": O.ReversedDict,
@@ -263,6 +290,8 @@ def conditions(tier, seed):
     for cname in CONTAINERS:
         for kind in (0, 1, 2, 3, 4):
             out.append(make_seq(cname, kind, L, to))
+    for cname in ("list", "gen", "iter"):
+        out.append(make_compose(cname, L, to))
     for mname in MAPS:
         for kk in ("str", "int"):
             out.append(make_map(mname, kk, L, to))
